@@ -127,3 +127,24 @@ func TestC09ElectsHighestAfterSignalFailure(t *testing.T) {
 		t.Fatalf("signalled %v, want A:start", w.Signals)
 	}
 }
+
+// Defect (h): the range check `off+int64(len(b)) > c.size` overflows for offsets near 2^63 and
+// lets the I/O through to the replicas.
+func TestC01RangeCheckOverflow(t *testing.T) {
+	c, w := newCtl(t, "1")
+	reg(c, "A", 5, "closed")
+	if err := c.Start("tcp://A:9502"); err != nil || c.ReadOnly {
+		t.Fatalf("setup: %v ro=%v", err, c.ReadOnly)
+	}
+	w.ResetLog()
+	off := int64(1<<63 - 1 - 100)
+	n, err := c.WriteAt(make([]byte, 4096), off)
+	if err == nil || n != 0 || len(w.TakeCalls()) != 0 {
+		t.Fatalf("write at offset %d beyond the volume reached the replicas: n=%d err=%v calls=%v", off, n, err, w.TakeCalls())
+	}
+	w.ResetLog()
+	n, err = c.ReadAt(make([]byte, 4096), off)
+	if err == nil || len(w.TakeCalls()) != 0 {
+		t.Fatalf("read at offset %d beyond the volume reached the replicas: n=%d err=%v calls=%v", off, n, err, w.TakeCalls())
+	}
+}
